@@ -9,7 +9,7 @@ from ..algebra import Extractor, Rat, Unsupported
 from ..cfg import CFG
 from ..core import Ctx
 from ..model import body_stmts, dotted, kwarg, norm, walk_no_nested
-from .common import CACHING_DECORATORS, assigned_value, enclosing, expand_locals, is_cmp, prog, resolve_local
+from .common import CACHING_DECORATORS, assigned_value, check_annotator_key, enclosing, expand_locals, is_cmp, prog, resolve_local
 
 CLS = "CorpusShufflingTool"
 
@@ -360,5 +360,6 @@ def run(ctx: Ctx):
                         "the number of false positives uses len(reference) = number of annotators (documented as 'constant & proportional to the magnitude'; not part of the property)"]
     ctx.assumptions += ["Continuum.add / remove behave as in C13", "reference aliasing is C14's concern"]
     rule_from_reference(ctx)
+    check_annotator_key(ctx, "R-C19-1")       # "exactly the requested annotators": the tool creates them through continuum.add(name, ...)
     rule_perturbations(ctx)
     rule_driver(ctx)
